@@ -917,6 +917,10 @@ func writeEvidence(prop string, pc *propConfig, seed uint64, a *aggregate, wall 
 		"quarantined_windows": windows,
 		"workers":             runtime.NumCPU(),
 	}
+	if n := a.notes["executions"]; n > 0 {
+		cov["evaluations"] = n
+		cov["seeded_workloads"] = a.runs
+	}
 	ev := map[string]any{
 		"property_id": prop,
 		"tier":        *tier,
